@@ -11,6 +11,7 @@ import Iodata.Lemmas.Fmt.FcidumpW
 import Iodata.Lemmas.Fmt.PoscarW
 import Iodata.Lemmas.Fmt.FchkO
 import Iodata.Lemmas.Fmt.WfnS
+import Iodata.Lemmas.Fmt.WfxS
 import Iodata.Gen.LayoutsW
 
 namespace Iodata.Props.C02W
@@ -214,6 +215,38 @@ example : WfnS.Dom tables wfnL ⟨[], [⟨8, ⟨true, 9912345678⟩, ⟨false, 9
     [⟨⟨false, 20000000⟩, ⟨true, 20123456⟩, (List.range 7).map (fun k => ⟨k % 2 == 1, 123456789, 0⟩)⟩,
      ⟨⟨false, 0⟩, ⟨false, 500000⟩, (List.range 7).map (fun k => ⟨false, 100000000 + k, -1⟩)⟩],
     none, some ⟨false, 200000001⟩, some [3, 3]⟩ := by
+  decide +kernel
+
+/-! ## WFX (section layer) -/
+
+/-- WFX: `parse_wfx` on the written file holds every section under its tag, with its lines in order, and the orbital
+numbers 1, 2, … under `<MO Numbers>` — for every list of sections with distinct well-formed tags: text sections, integer
+sections of any length (ten per line), real sections of any length (four or three per line, `NAN` included) and the
+orbital section with any number of orbitals and coefficients. -/
+theorem wfx_parse_dump (L : WfxS.Layout) (secs : List WfxS.Sec) (h : WfxS.Dom L secs) :
+    WfxS.parse (WfxS.dump L secs) = .ok (WfxS.norm L secs) :=
+  WfxS.parse_dump L secs h
+
+/-- WFX: the typed decoding of `load_data_wfx` on the lines held for a number section returns the numbers that were
+written, in order — every count (ragged last lines), every integer, every real digit by digit (mantissa and exponent),
+NaN as NaN. -/
+theorem wfx_numbers (L : WfxS.Layout) (hL : WfxS.LayoutOK L) (per : Nat) (hper : 0 < per) :
+    (∀ l : List Int, WfxS.decodeInts (WfxS.stripAll (WfxS.numLines per intToDec l)) = some l) ∧
+    (∀ l : List (Option Sci), (∀ x ∈ l, WfxS.okSci L x = true) →
+      WfxS.decodeReals L.d (WfxS.stripAll (WfxS.numLines per (WfxS.real L) l)) = some l) :=
+  ⟨WfxS.decodeInts_lines per hper, fun l hx => WfxS.decodeReals_lines L hL per hper l hx⟩
+
+/-- WFX: the writer's `print` calls and the string constants of `parse_wfx` in the source are the ones the model
+transcribes (`{: ,.14E}`, ten integers / four reals / three coordinates per line, the `<MO Number>` records, the
+closing tag `"</" + tag.lstrip("<")`). -/
+theorem wfx_source_shape :
+    WfxS.LayoutOK wfxL ∧ wfx_writes = WfxS.expectedWrites wfxL ∧ wfx_parse_consts = WfxS.expectedParseConsts := by
+  decide +kernel
+
+/-- non-vacuity: four sections (text, eleven integers, five reals with a NaN, two orbitals of five coefficients). -/
+example : WfxS.Dom wfxL [⟨"<Title>".toList, .text [" t ".toList]⟩, ⟨"<Primitive Centers>".toList, .ints 10 (List.replicate 11 1)⟩,
+    ⟨"<Primitive Exponents>".toList, .reals 4 [some ⟨false, 123456789012345, 2⟩, none, some ⟨true, 100000000000000, -3⟩, some ⟨false, 0, 0⟩, some ⟨false, 5, 0⟩]⟩,
+    ⟨WfxS.moTag, .mo 4 [List.replicate 5 (some ⟨false, 100000000000000, 0⟩), List.replicate 5 (some ⟨true, 200000000000000, 0⟩)]⟩] := by
   decide +kernel
 
 end Iodata.Props.C02W
